@@ -115,6 +115,16 @@ class Inv:
                 return False, 'the validation loop over cels has an early exit'
         if not guarded:
             return False, 'no `layer >= layers.len() -> Err` guard before a cel is kept'
+        # the validated row keeps the slot positions of the raw row: one push per slot, also for empty and dropped ones (a `continue`
+        # before the push - seed C19-m skipped zero-sized cels - shifts every later cel of the frame one layer down)
+        inner = None
+        for L2 in cv.cfg.loops_containing(c.bb):
+            if inner is None or len(L2['body']) < len(inner['body']):
+                inner = L2
+        slot_pushes = [p_ for p_ in q.calls(cv, 'std::vec::Vec::push') if inner is not None and p_.bb in inner['body'] and
+                       'Option<cel::RawCel' in (p_.args[1]['p']['ty'] if p_.args[1]['k'] in ('copy', 'move') else p_.args[1].get('ty', ''))]
+        if len(slot_pushes) != 1 or not all(cv.cfg.dominates(slot_pushes[0].bb, x) for x, _ in inner['back_edges']):
+            return False, 'the validated cel row is not filled with exactly one push per slot of the raw row (%d pushes, or a path round the push)' % len(slot_pushes)
         # Some(cel) is only pushed from that validated value; None otherwise
         pr = chain_propagates(fx, cv.name)
         if pr:
@@ -258,6 +268,39 @@ class Inv:
                         bad_is_err = bool(f_edge) and q.arm_always_err(vb, f_edge[0])
                 if whole and pred_ok and bad_is_err:
                     okv = True
+        if not okv:
+            # maximum form: `if let Some(m) = tiles.iter().map(|t| t.id()).max() { if m >= count { return Err } }` - the bound is tested on
+            # the maximum over the whole tile vector (no max: no tile), the failing side always errs, and every Ok return lies beyond
+            for c2 in q.calls(vb, 'std::iter::Iterator::max'):
+                src = q.arg_terms(c2)[0]
+                ids = src[0] == 'call' and src[1] == 'std::iter::Iterator::map' and src[2][1][0] == 'closure' and src[2][1][1] in fx.by_path
+                if ids:
+                    r_ = q.res(fx.by_path[src[2][1][1]]).ret()
+                    ids = (r_[0] == 'call' and r_[1].endswith('Tile::id')) or (r_[0] == 'field' and r_[2] == 'id')
+                    base = q.unwrap_into_iter(src[2][0])
+                    ids = ids and any(x[0] == 'field' and x[2] == 'tiles' for x in walk(base)) and not any(
+                        x[0] == 'call' and x[1].split('::')[-1] in ('take', 'skip', 'step_by', 'filter', 'skip_while', 'take_while', 'rev') for x in walk(base))
+                if not ids:
+                    continue
+
+                def want(op, l, r2, c2=c2):
+                    return op == 'Lt' and any(x[0] == 'call' and x[3] == (vb.name, c2.bb) for x in walk(l)) and is_param(strip_casts(r2), 2)
+                oks_ = [bb_ for bb_, _ in common.ok_defs(vb)]
+                some_side = [bb_ for bb_ in oks_ if T.rejecting_fact(vb, bb_, want)]
+                # Ok is also reached when there is no maximum (empty map): that path must come from the None edge of the same Option
+                def on_none_edge(blk, c2=c2):
+                    for cond, vals, a in q.guards(vb, blk):
+                        if cond[0] == 'discr' and any(x[0] == 'call' and x[3] == (vb.name, c2.bb) for x in walk(cond)):
+                            explicit = [v_ for v_, _ in vb.blocks[a]['term']['targets']]
+                            if vals == [0] or (vals == ['otherwise'] and explicit == [1]):
+                                return True
+                    return False
+                none_side = [bb_ for bb_ in oks_ if bb_ not in some_side and on_none_edge(bb_)]
+                if oks_ and all(bb_ in some_side or bb_ in none_side for bb_ in oks_) and some_side:
+                    okv = True
+                elif oks_:
+                    # a single Ok block after the join: every path into it passes the test or the None edge
+                    okv = all(all(_p in vb.cfg.reach and (T.rejecting_fact(vb, _p, want) or on_none_edge(_p)) for _p in vb.cfg.pred[bb_]) for bb_ in oks_)
         pr = chain_propagates(fx, rv.name)
         return ok and okv and not pr, ('every tilemap cel passes validate_tile_ids(tile_count of its layer\'s tileset), which rejects id >= tile_count for every tile'
                                        if ok and okv and not pr else 'tile-id validation incomplete (%s %s %s)' % (ok, okv, pr))
